@@ -245,7 +245,7 @@ impl Property for C13 {
     }
     fn runs(&self, tier: Tier) -> usize {
         match tier {
-            Tier::Quick => 80_000,
+            Tier::Quick => 150_000,
             Tier::Thorough => 8_000_000,
         }
     }
